@@ -41,6 +41,10 @@ CAPS = {
     'file': dict(undo=True, pack=True, record_iternext=True, last_inv=True,
                  loadserial=True, history_size=True, iter_all_recs=True,
                  resolve=True, delete=True, restore=True, reopen=True),
+    'demo': dict(undo=False, pack=False, record_iternext=False,
+                 last_inv=False, loadserial=True, history_size=True,
+                 iter_all_recs=True, resolve=True, delete=False,
+                 restore=False, reopen=False, len=False),
     'mapping': dict(undo=False, pack=True, record_iternext=False, last_inv=False,
                     loadserial=True, history_size=True, iter_all_recs=False,
                     iter_sorted=True, resolve=False, delete=False,
@@ -75,11 +79,45 @@ class Driver:
         self.commit_log = []        # tids in commit order (packs keep it)
         self.on_commit = None       # hook(driver, tid) after each commit
         self.opts_protect_root = self.opts.pop('protect_root', False)
+        self.base_driver = None
+        if kind.startswith('demo'):
+            self.setup_demo()
         self.open(create=True)
 
     # -- storage life cycle ----------------------------------------------
 
+    def setup_demo(self):
+        """Build and fill the base storage with its own driver; the demo
+        driver's model starts as a copy of the base's."""
+        _, bk, ck = (self.kind.split(':') + ['mapping', 'mapping'])[:3]
+        self.demo_kinds = (bk, ck)
+        bd = Driver(self.sim, bk, path='/sim/Base.fs',
+                    opts={'pack_gc': False} if bk == 'file' else None)
+        for op in self.opts.pop('base_ops', ()):
+            try:
+                bd.execute(op)
+            except Violation:
+                break
+        self.base_driver = bd
+        self.model = Log(bd.model.txns)
+        self.counter = bd.counter + 1000
+        self.viol.extend(('base:' + o, x) for o, x in bd.viol)
+        if ck == 'file':
+            self.caps['undo_ops'] = True
+
     def make_storage(self, create=False):
+        if self.kind.startswith('demo'):
+            from ZODB.DemoStorage import DemoStorage
+            from ZODB.FileStorage import FileStorage
+            bk, ck = self.demo_kinds
+            changes = None
+            if ck == 'file':
+                changes = FileStorage('/sim/Changes.fs', create=create,
+                                      pack_gc=False)
+            elif ck == 'mapping':
+                from ZODB.MappingStorage import MappingStorage
+                changes = MappingStorage('changes')
+            return DemoStorage(base=self.base_driver.st, changes=changes)
         if self.kind == 'file':
             from ZODB.FileStorage import FileStorage
             return FileStorage(self.path, create=create, **self.opts)
@@ -161,6 +199,12 @@ class Driver:
         ctid, crec = cur
         if serial == ctid:
             return ('ok', data)
+        if self.base_driver is not None and crec.kind == UNCREATE:
+            # un-created: for a demo storage the object does not exist in a
+            # lower layer (any serial creates it), while the changes layer
+            # itself insists on the un-creation's serial: the property is
+            # silent, both outcomes are accepted
+            return ('either', data)
         if not self.caps.get('resolve') or cls not in RESOLVABLE:
             return ('conflict',)
         old = None
@@ -248,6 +292,9 @@ class Driver:
             try:
                 st.store(oid, serial, data, '', t)
             except ConflictError as e:
+                if want[0] == 'either':
+                    st.tpc_abort(t)
+                    return 'conflict'
                 if isinstance(e, ReadConflictError) or want[0] != 'conflict':
                     self.flag('store-outcome',
                               'store(%r, serial=%r) raised %s, model says %s'
